@@ -18,7 +18,7 @@ where
 {
     use std::io::ErrorKind::*;
     match *kind {
-        NotFound => 0,
+        NotFound => 0u32,
         PermissionDenied => 1,
         ConnectionRefused => 2,
         ConnectionReset => 3,
